@@ -84,6 +84,8 @@ E2E_GROUP = {
 for _pre in ("int-", "str-"):
     for _n in ("func-of-recvchan", "func-returning-sendchan", "func1", "func-variadic", "func-slice"):
         E2E_GROUP[_pre + "local-" + _n + "-as-same"] = "generic-local-func-literal-type"
+E2E_GROUP["genlocal-assert-in-closure-int"] = "generic-local-type-in-closure"
+E2E_GROUP["genlocal-assert-in-closure-str"] = "generic-local-type-in-closure"
 
 
 def run_e2e(ck, recs):
@@ -114,6 +116,22 @@ def run_e2e(ck, recs):
         if rc != 0:
             return sub, "llgo build failed: " + log[-1500:], None, None
         rc, _, got = L.run_bin(out)
+        if ck.tier == "thorough" and sub == "e2e":
+            def psyms(binp):
+                _, o = vlib.sh(["/usr/lib/llvm-14/bin/llvm-nm", binp])
+                return sorted(set(l.split(" ", 2)[2] for l in o.splitlines() if l.count(" ") >= 2 and ".p" in l and "_llgo_" in l))
+            first = psyms(out)
+            for k in range(2):
+                L.cache = os.path.join(ck.work, "xdgcache_again%d" % k)
+                os.makedirs(L.cache, exist_ok=True)
+                out2 = out + ".again%d" % k
+                rc2, log2 = L.build(d, out2)
+                if rc2 == 0 and psyms(out2) != first:
+                    diff = [x for x in psyms(out2) if x not in first][:3]
+                    ck.violation("e2e-local-generic-type-pos-suffix-varies",
+                                 "two builds of one program from fresh caches give different descriptor names, e.g. %r (first build has %r)"
+                                 % (diff, [x for x in first if x not in psyms(out2)][:3]), {"program": "props/C07/harness/e2e"})
+                    break
         return sub, None, want, got
     results = [one(pm) for pm in progs]   # serial: the second build reuses the private llgo cache
     for sub, err, want, got in results:
